@@ -6,7 +6,7 @@
    cur_of / hw_of / pers_of / acc_of recompute from such a trace alone: the position after the last
    accepted batch (a restart resumes where it says), the largest position ever accepted, the last
    position written to forwarder.json, the batches accepted since the last restart. *)
-From LR Require Import lib.Base model.Forwarder proofs.ForwarderP model.SyslogSink proofs.SyslogSinkP.
+From LR Require Import lib.Base model.Forwarder proofs.ForwarderP model.SyslogSink proofs.SyslogSinkP model.Supervisor proofs.SupervisorP.
 
 (* Every hand-over to the sink (accepted or not, first try or retry) is a non-empty run of consecutive
    partition events in stored order that begins exactly after the last accepted batch: no gap, nothing
@@ -132,3 +132,57 @@ Proof.
   vm_compute in H. destruct H as (j & R & A & _). specialize (A eq_refl). subst j. discriminate R.
 Qed.
 Print Assumptions C18_sink_batch_continue_refuted.
+
+
+(* ---- the supervisor (model/Supervisor.v): several workers, configuration reloads, restarts ----
+   [srun true evs (sup0 c)] : the forwarder started with configuration c and driven through ANY list of events: sync
+   ticks with or without a new configuration, stopping workers reaching their loop heads, worker starts that fail,
+   deliveries, persist ticks, process restarts with any configuration (configurations have distinct worker names:
+   Config.Check). *)
+
+(* at most one worker per name can deliver at any moment: the worker map has one entry per name, and every worker that
+   was replaced in or dropped from the map had stopped - so two workers never forward the same pipe concurrently, and
+   the position a descriptor holds is written by one worker at a time *)
+Theorem C18_sup_one_worker_per_name : forall c evs, NoDup (keys c) -> Forall valid_ev evs ->
+  let s := srun true evs (sup0 c) in
+  NoDup (keys (wmap s)) /\ (forall n w, In (n, w) (retired s) -> live w = false).
+Proof.
+  intros c evs ND Hv s. pose proof (srun_inv evs (sup0 c) Hv (sup0_inv c ND)) as I. fold s in I.
+  split; [exact (i_wkeys s I)|exact (retired_not_live s I)].
+Qed.
+Print Assumptions C18_sup_one_worker_per_name.
+
+(* a sync never moves a position forward and resets it only with the configuration: after any sync, for every configured
+   worker the forwarder holds a descriptor with exactly the configured configuration, and that descriptor is either the
+   object it held before (same configuration: same position, the worker goes on where it was) or a new object at the
+   empty position whose configuration differs from the one held before (redelivery from the beginning, never a skip) *)
+Theorem C18_sup_sync_positions : forall s, NoDup (keys (cfg s)) -> forall n k, In (n, k) (cfg s) ->
+  exists d, lookup n (descs (do_sync s)) = Some d /\ sd_cfg d = k /\
+            ((lookup n (descs s) = Some d) \/
+             ((forall od, lookup n (descs s) = Some od -> sd_cfg od <> k) /\ sd_pos d = 0)).
+Proof.
+  intros s ND n k Hin. destruct (do_sync_lookup s ND n k Hin) as (d & L & C & _ & Hd).
+  exists d. split; [exact L|]. split; [exact C|]. destruct Hd as [H|(H1 & H2 & _)]; [left; exact H|right; split; assumption].
+Qed.
+Print Assumptions C18_sup_sync_positions.
+
+(* progress of the supervisor: from every reachable state, once the configuration stays as it is and the stopping workers
+   have reached their loop heads, two syncs later every configured worker runs, alive, on the forwarder's current
+   descriptor of its name - whatever happened before (start failures included) *)
+Theorem C18_sup_settles : forall c evs, NoDup (keys c) -> Forall valid_ev evs ->
+  settled (do_sync (exit_all (do_sync (srun true evs (sup0 c))))).
+Proof. intros c evs ND Hv. apply two_syncs_settle. exact (srun_inv evs (sup0 c) Hv (sup0_inv c ND)). Qed.
+Print Assumptions C18_sup_settles.
+
+(* the code before the repair (a failed start left the worker's state at running): the worker is in the map, marked
+   running, not alive, and no number of syncs replaces it *)
+Theorem C18_sup_start_failure_unmarked_refuted : forall k,
+  lookup 7 (wmap (srun false (SStartFail 7 :: repeat (SSync None) k) (sup0 [(7, 1)]))) = Some (mkW 0 0 false).
+Proof. exact unmarked_start_failure_sticks. Qed.
+Print Assumptions C18_sup_start_failure_unmarked_refuted.
+
+(* non-vacuity: a configuration change replaces a worker in two syncs; the kept worker keeps its position *)
+Example C18_sup_nonvacuous :
+  let s := srun true [SDeliver 1 4; SDeliver 2 3; SSync (Some [(1, 0); (2, 9)]); SExit 2; SSync None] (sup0 [(1, 0); (2, 0)]) in
+  view_descs s = [(1, (0, 4)); (2, (9, 0))] /\ view_workers s = [(1, (0, true)); (2, (0, true))] /\ length (retired s) = 1.
+Proof. vm_compute. repeat split. Qed.
